@@ -187,6 +187,44 @@ def mk(rng, nsel, having_kind, norder, limit, distinct, tie_first=False):
     return sc
 
 
+def mk_multi(rng):
+    """several consecutive batches of one statement with a HAVING over an aggregate that is NOT selected (or over an alias): each batch is
+    judged from its own rows alone - also after batches in which HAVING kept nothing (the very first one, or one in the middle)"""
+    groups = ["a", "b", "c"][:rng.choice([2, 3])]
+    nb = rng.choice([2, 3, 4])
+    fn = rng.choice(["max", "sum", "min", "count"])
+    thr = rng.choice([5, 8, 10])
+    small = rng.random() < 0.8       # most scenarios: at least one batch (the first, half of the time) in which no group passes
+    empties = {0} if rng.random() < 0.5 else {rng.randrange(nb)}
+    rows, rid, bounds = [], 0, []
+    for b in range(nb):
+        for _ in range(rng.choice([4, 5, 6])):
+            rid += 1
+            hi = [1, 2, 3] if (small and b in empties and fn != "count") else [1, 2, 3, 5, 8, 13, None, 9]
+            rows.append({"id": rid, "ts": b * 10000 + 1000 + rid, "g": rng.choice(groups), "v": rng.choice(hi), "w": rng.choice([0, 1, 4, 6, 9, -2])})
+        bounds.append(rid)
+    rows.append({"id": rid + 1, "ts": nb * 10000 + 30000, "g": "zz", "v": 1, "w": 1})
+    sel = [{"al": "c0", "e": aggref(rng.choice(["sum", "avg", "min", "count"]), rng.choice(["v", "w"]))}]
+    if rng.random() < 0.5:
+        sel.append({"al": "c1", "e": item(rng, rng.choice([0, 2, 3]))})
+    if rng.random() < 0.7:
+        having = {"t": "cmp", "op": rng.choice([">", ">="]), "a": aggref(fn, "v"), "b": num(thr if fn != "count" else 2)}      # usually not selected
+    else:
+        having = {"t": "cmp", "op": rng.choice([">", ">="]), "a": col("c0"), "b": num(rng.choice([3, 6, 10]))}
+    defs = {}
+    collect(sel, defs); collect(having, defs)
+    lo = 0
+    for hi_ in bounds:
+        for g in set(r["g"] for r in rows[lo:hi_]):
+            env = {k: pyagg(d["fn"], [absv(r.get(d["arg"]), d) for r in rows[lo:hi_] if r["g"] == g]) for k, d in defs.items()}
+            if any(null_plus(strip(it["e"]), env) for it in sel) or null_plus(strip(having), env):
+                return None
+        lo = hi_
+    txt = "SELECT g, " + ", ".join("%s AS %s" % (agg_sql(it["e"]), it["al"]) for it in sel) + " FROM stream GROUP BY g, TumblingWindow('10s') HAVING " + agg_sql(having) + " WITH (TIMESTAMP='ts', TIMEUNIT='ms')"
+    meta = {"fam": "postagg", "n": bounds[0], "bounds": bounds, "aggdefs": list(defs.values()), "sel": strip(sel), "gsel": 1, "order": [], "limit": 0, "distinct": 0, "having": strip(having)}
+    return {"meta": meta, "sql": txt, "rows": rows}
+
+
 def join_variant(sc, rng):
     """the same statement with the group column taken from a joined table and reported under an alias (SELECT m.loc AS site ...
     GROUP BY m.loc), HAVING naming it by its qualified name: the post-aggregation clauses see the same groups. The table maps g to
@@ -242,6 +280,11 @@ def run(tier):
     import C13
     for _ in range(100 if quick else 4000):
         scen.append(C13.having_scen(rng, ["like", "notnull", "isnull", "like_and_notnull", "notnull_and_like"], ["a%", "%b", "a_", "%", "%a%", "a%b", "_"]))
+    made = 0
+    while made < (120 if quick else 4000):
+        sc = mk_multi(rng)
+        if sc is not None:
+            scen.append(sc); made += 1
     seqfam.run_scenarios(res, scen, "TracePostAgg", tag="postagg", relayout_p=0.3, retype_p=0.3, rename_p=0.3)
     seqfam.run_pinned(res, "TracePostAgg")
     res.cov["exhaustive"] = False
